@@ -166,4 +166,5 @@ def c10(tier, seed):
                                    chunk=60, workers=8, timeout=3600)
     from . import repro_check
     repro_check.check(rep, tier)
+    repro_check.tabular(rep, tier)
     return rep.finish()
